@@ -229,6 +229,21 @@ def binop(ip, op, a, b):
     if op == 'BitOr':
         # regex flag masks: kept abstract
         return Obj('flags', parts=[a, b])
+    if isinstance(a, Obj) and isinstance(b, Obj) and a.kind == 'timedelta' and b.kind == 'timedelta':
+        x, y = a.f['us'], b.f['us']
+        if op in ('FloorDiv', 'Div', 'Mod'):
+            if ip.ctx.branch(y == 0):
+                raise_('ZeroDivisionError', 'timedelta division by zero')
+            if op == 'FloorDiv':
+                return norm(ip, I(z3.ToInt(z3.ToReal(x) / z3.ToReal(y))))
+            if op == 'Div':
+                return R(z3.ToReal(x) / z3.ToReal(y))
+        if op in ('Add', 'Sub'):
+            return Obj('timedelta', us=z3.simplify(x + y if op == 'Add' else x - y))
+    if isinstance(a, Obj) or isinstance(b, Obj):
+        known = ('timedelta',)
+        if not ((isinstance(a, Obj) and a.kind in known) or (isinstance(b, Obj) and b.kind in known)):
+            raise OutOfReach(f'operator {op} on {a!r}, {b!r}')
     ka, kb = numkind(ip, a), numkind(ip, b)
     if ka and kb:
         return num_binop(ip, op, a, b, ka, kb)
